@@ -12,19 +12,10 @@ from sa.order import Order
 from sa.regex import Compiled, DFA, difference_witness
 from sa.selftest import Edit, Variant
 
-EXPLANATION = (
-    "Necessary structural conditions of the grammar, decided on the source: (gate) checkpicosvg post-dominates every stage of the in-place "
-    "pipeline, its result is tested and raises, options flow under their own names from the CLI flags to the gate; (gate language) the "
-    "folded element-path allowlist is compared by automata with the README grammar, required paths and duplicate-id logic are present, the "
-    "traversal builds paths in the /name[n] format the patterns assume; (stage precedence) dominance / never-after queries over the CFG of "
-    "topicosvg for every ordered pair the grammar needs; (path data) target forms of explicit_lines/expand_shorthand/absolute and "
-    "unconditional rounding of every number; (attributes/elements) kept groups are cleared and get only `opacity` taken from the same clamped "
-    "value the keep/flatten decision used, every visited element loses clip-path/transform, clipPath subtrees are deleted, root presentation "
-    "attributes and non-gradient defs are purged, stroke fields reset, clipped paths marked nonzero, gradients pass template and translation "
-    "normalisation, and element creation sites are a frozen who-may-create table."
-)
-ASSUMPTIONS = ["Skia output coordinates are finite; lxml serialisation is faithful",
-               "evenodd may survive only for paths evenodd_to_nonzero_winding does not touch (stage presence and order are what is decided)"]
+from sa.texts import T as _T
+
+EXPLANATION = _T["C01"]["explanation"] + " Not decided: " + _T["C01"]["not_decided"] + "."
+ASSUMPTIONS = _T["C01"]["assumptions"]
 P = "C01"
 
 STAGES = ["remove_nonsvg_content", "remove_processing_instructions", "remove_anonymous_symbols", "remove_title_meta_desc",
